@@ -197,9 +197,57 @@ func c14(c *Ctx) {
 			rep.Eval(1)
 			rep.Inc("calls")
 			ops = append(ops, name)
+			// searches entered / results sent before this call (trace events so far)
+			rec.mu.Lock()
+			enters, sends := 0, 0
+			for _, e := range rec.evs {
+				switch e.Kind {
+				case "run-enter":
+					enters++
+				case "result-send":
+					sends++
+				}
+			}
+			callIdx := len(rec.evs)
+			rec.mu.Unlock()
 			rec.add("call:"+name, 0, 0, "")
-			ok := withWatchdog(20*time.Second, f)
+			done := make(chan struct{})
+			go func() { f(); close(done) }()
+			ok := true
+			select {
+			case <-done:
+			case <-time.After(20 * time.Second):
+				ok = false
+			}
 			rec.add("ret:"+name, 0, 0, "")
+			if !ok && strings.HasPrefix(name, "start#") && enters > sends {
+				// a start issued while a search was running (entered, result not yet sent) has
+				// been blocking the controller for 20 s.  Is it the running search it waits
+				// for?  End that search from here: if the call comes back only now, the start
+				// was neither rejected nor non-blocking (decided by this causal order, not by
+				// the 20 s).
+				go s.StopSearch()
+				select {
+				case <-done:
+					rec.mu.Lock()
+					rejected, entered := false, false
+					for _, e := range rec.evs[callIdx:] {
+						switch e.Kind {
+						case "run-rejected":
+							rejected = true
+						case "run-enter":
+							entered = true
+						}
+					}
+					rec.mu.Unlock()
+					rep.Viol("start-while-running:blocks-controller-until-search-ends", fmt.Sprintf("%s was issued while a search was running; it did not return for 20 s and came back only after that search was stopped from outside (rejected afterwards: %v, ran as a search of its own: %v); history %v", name, rejected, entered, ops), map[string]interface{}{"history": h, "ops": ops})
+					deadlocks++
+					blocked = true
+					s.StopSearch()
+					return false
+				case <-time.After(30 * time.Second):
+				}
+			}
 			if !ok {
 				dl, sig := provenDeadlock()
 				payload := map[string]interface{}{"history": h, "ops": ops}
